@@ -1,0 +1,6 @@
+//go:build !verif
+// +build !verif
+
+package parse
+
+func verifEvent(event string, id interface{}, detail string) {}
